@@ -25,7 +25,7 @@ def shards(tier):
 
 
 def required_classes(tier):
-    return ["add:generic", "add:P=Q", "add:P=-Q", "add:identity", "multiply:n=0", "multiply:n<0", "multiply:n>=N", "multiply:random", "privtopub:window-around-N", "privtopub:key>=N", "multiply:bit-pattern", "multiply:int-subclass", "soak:distinct-scalars", "multiply:endomorphism-eigenvalue", "add:near-x", "inv:small-and-structured", "multiply:hash-colliding", "add:shared-coordinate", "add:hash-colliding",
+    return ["add:generic", "add:P=Q", "add:P=-Q", "add:identity", "multiply:n=0", "multiply:n<0", "multiply:n>=N", "multiply:random", "privtopub:window-around-N", "privtopub:key>=N", "multiply:bit-pattern", "multiply:int-subclass", "soak:distinct-scalars", "multiply:endomorphism-eigenvalue", "multiply:special-prefix", "add:near-x", "inv:small-and-structured", "multiply:hash-colliding", "add:shared-coordinate", "add:hash-colliding",
             "privtopub", "W4:pairs", "W4:scalars", "constants"]
 
 
@@ -140,6 +140,9 @@ def real_curve(rec, s):
             yield "multiply:n<0", n
         for n in CG.endo_scalars(N):
             yield "multiply:endomorphism-eigenvalue", n
+        for n in CG.ladder_special_scalars(N, rng, 6 if quick else 60):
+            yield "multiply:special-prefix", n
+            yield "multiply:special-prefix", -n
         from .common import IntSub, bit_patterns
         for n in bit_patterns(256, rng, 3 if quick else 12):
             yield "multiply:bit-pattern", n
